@@ -6,6 +6,8 @@ TYPES = ["note", "warning", "todo", "bug", "history"]
 
 # core alphabet (deep bounded-exhaustive layer): one representative per line class
 CORE = ["alpha beta", "", "@note", "@note gamma", "@endnote", "pre @endnote post", "@warning wtxt", "@endwarning"]
+# six classes for the deepest exhaustive layer (thorough tier, up to length 6)
+CORE6 = ["alpha beta", "", "@note gamma", "@endnote", "pre @endnote post", "@warning wtxt"]
 # wide alphabet (shallow exhaustive layer + random bodies)
 WIDE = CORE + [
     "txt @note after",            # text before the start marker (recorded defect)
